@@ -360,6 +360,18 @@ func (c *Ctx) bufferChecked(eng *ranges.Engine, fn *ssa.Function, p ssa.Value, d
 					}
 				}
 			}
+			// the buffer travels in a field of a request / job struct (r := &req{pixels: p, …}; …(r)):
+			// every reader of that field, anywhere in the library, takes over the obligation
+			if st, ok := x.(*ssa.Store); ok && st.Val == p && depth < 3 {
+				if fa, ok := st.Addr.(*ssa.FieldAddr); ok {
+					if okAll, where, d := c.fieldReadersChecked(eng, fa, depth, visiting); okAll {
+						detail = "buffer travels in field " + fieldNameOf(fa.X.Type(), fa.Field) + "; " + d
+						continue
+					} else if where != "" && !checkedAt(ins.Block()) {
+						return false, where, d + " (buffer stored in field " + fieldNameOf(fa.X.Type(), fa.Field) + " in " + load.FuncName(fn) + ")"
+					}
+				}
+			}
 			// stored or merged: not followed further; require the check here
 			if !checkedAt(ins.Block()) {
 				return false, c.P.Pos(ins.Pos()), "the pixel buffer escapes in " + load.FuncName(fn) + " before any length test"
@@ -390,6 +402,55 @@ func (c *Ctx) lenCheckedAt(fn *ssa.Function, b *ssa.BasicBlock, p ssa.Value) boo
 		}
 	}
 	return false
+}
+
+// fieldReadersChecked: every load of the struct field fa addresses (same named struct type, same
+// field), in any library function, is used as a length-checked buffer there.
+func (c *Ctx) fieldReadersChecked(eng *ranges.Engine, fa *ssa.FieldAddr, depth int, visiting map[*ssa.Function]bool) (bool, string, string) {
+	owner := namedOfRecv(fa.X.Type())
+	if owner == nil || !isByteSlice(fa.Type().(*types.Pointer).Elem()) {
+		return false, "", ""
+	}
+	readers := 0
+	for _, g := range c.scopeFuncs() {
+		for _, b := range g.Blocks {
+			for _, ins := range b.Instrs {
+				var loaded ssa.Value
+				switch y := ins.(type) {
+				case *ssa.UnOp:
+					if y.Op != token.MUL {
+						continue
+					}
+					lfa, ok := y.X.(*ssa.FieldAddr)
+					if !ok || lfa.Field != fa.Field {
+						continue
+					}
+					if o := namedOfRecv(lfa.X.Type()); o == nil || o.Obj() != owner.Obj() {
+						continue
+					}
+					loaded = y
+				case *ssa.Field:
+					if y.Field != fa.Field {
+						continue
+					}
+					if o := namedOfRecv(y.X.Type()); o == nil || o.Obj() != owner.Obj() {
+						continue
+					}
+					loaded = y
+				default:
+					continue
+				}
+				readers++
+				if ok, where, d := c.bufferChecked(eng, g, loaded, depth+1, visiting); !ok {
+					return false, where, d
+				}
+			}
+		}
+	}
+	if readers == 0 {
+		return false, "", ""
+	}
+	return true, "", fmt.Sprintf("all %d readers of the field test the length (or hand the buffer to code that does)", readers)
 }
 
 // structOnlyFeedsChecker: local struct al (holding buffer p in a field) is used only for field
